@@ -16,19 +16,20 @@ import (
 type x509Cert = x509.Certificate
 
 type VCfg struct {
-	Mode           string   `json:"mode,omitempty"`
-	WorkDir        string   `json:"-"`
-	Storage        string   `json:"-"`
-	SigMode        string   `json:"-"`
-	FetchMode      string   `json:"-"`
-	CDPStrict      bool     `json:"-"`
-	CRLFiles       []string `json:"-"`
-	CRLUrls        []string `json:"-"`
-	TrustedSigners []string `json:"-"`
-	Interval       string   `json:"-"`
-	AIAStrict      bool     `json:"-"`
-	CacheDuration  string   `json:"-"`
-	NoCRLConfig    bool     `json:"-"`
+	Mode              string   `json:"mode,omitempty"`
+	WorkDir           string   `json:"-"`
+	Storage           string   `json:"-"`
+	SigMode           string   `json:"-"`
+	FetchMode         string   `json:"-"`
+	CDPStrict         bool     `json:"-"`
+	CRLFiles          []string `json:"-"`
+	CRLUrls           []string `json:"-"`
+	TrustedSigners    []string `json:"-"`
+	Interval          string   `json:"-"`
+	AIAStrict         bool     `json:"-"`
+	CacheDuration     string   `json:"-"`
+	NoCRLConfig       bool     `json:"-"`
+	TrustedResponders []string `json:"-"`
 }
 
 func (c VCfg) JSON() []byte {
@@ -74,6 +75,9 @@ func (c VCfg) JSON() []byte {
 	}
 	if c.CacheDuration != "" {
 		oc["default_cache_duration"] = c.CacheDuration
+	}
+	if len(c.TrustedResponders) > 0 {
+		oc["trusted_responder_certs_files"] = c.TrustedResponders
 	}
 	if len(oc) > 0 {
 		m["ocsp_config"] = oc
